@@ -135,7 +135,7 @@ theorem up_to_date_build_runs_nothing (e0 : Env) (a : Run.Args) (adopt : Bool) (
 
 /-- **After a successful build, the same build again does nothing** — the round trip, proved for
     projects without discovered dependencies (no `depfile`/`deps`, no command that rewrites an
-    input, no dependency lists in the log) on graphs without ordering cycles.  If an invocation
+    input, no dependency lists in the log) (no hypothesis about cycles: a successful want phase excludes them, `C06.cycle_among_requested_steps_is_diagnosed`).  If an invocation
     succeeds (without reloading the manifest), the files the steps it wanted name exist
     afterwards, and the manifest still loads to the same graph, then the next
     invocation with the same arguments changes nothing, starts no command and reports 0 tasks —
@@ -147,7 +147,7 @@ theorem up_to_date_build_runs_nothing (e0 : Env) (a : Run.Args) (adopt : Bool) (
 theorem build_after_successful_build_does_nothing (w : World) (a : InvArgs) (perms : List (List Nat))
     (fin : List (Nat × Sched.Term)) (l : Loader) (e0 : Env) (hl : loadEnv w a.manifestName = .ok (l, e0))
     (plain : Plain e0.g) (hlog : ∀ r ∈ w.log, r.deps = [])
-    (acyc : Sched.Acyclic (schedGraph e0.g)) (hpar : 0 < a.par) (n : Nat)
+    (hpar : 0 < a.par) (n : Nat)
     (hdone : (Run.build (schedGraph e0.g) (argsOf l a) (choices a.adopt perms fin) e0).2.2 = .done n)
     (hpresent : ∀ b bm, Run.Wanted (schedGraph e0.g) (argsOf l a) b → buildOf e0.g b = some bm → bm.cmdline.isNone = false →
       AllPresent (Run.build (schedGraph e0.g) (argsOf l a) (choices a.adopt perms fin) e0).2.1 bm)
@@ -159,7 +159,7 @@ theorem build_after_successful_build_does_nothing (w : World) (a : InvArgs) (per
     (o1 o2 : List (List Nat) × List (Nat × Sched.Term)) :
     (invoke w' a o1 o2).1 = w' ∧ commandEvents (invoke w' a o1 o2).2.2 = [] ∧
     (∀ k, (invoke w' a o1 o2).2.1 = .done k → k = 0) :=
-  second_build_does_nothing w a perms fin l e0 hl plain hlog acyc hpar n hdone hpresent w' hw' e0' hl' o1 o2
+  second_build_does_nothing w a perms fin l e0 hl plain hlog hpar n hdone hpresent w' hw' e0' hl' o1 o2
 
 /-- Non-vacuity: a two-file project (`build out: cc in`) whose record matches the tree satisfies
     the hypothesis. -/
@@ -195,8 +195,7 @@ example : Plain exEnv.g := by
     | succ n => simp [buildOf, exEnv] at hb)
 
 /-- **The round trip with discovered dependencies** (depfile / `deps = msvc` steps included).  For a
-    loaded project in which no command rewrites an input and every step has an output, on a graph
-    without ordering cycles, WHATEVER the log held before (records with dependency lists, records
+    loaded project in which no command rewrites an input and every step has an output, WHATEVER the log held before (records with dependency lists, records
     of other manifests): if an invocation succeeds without reloading the manifest, the
     dependencies its finished steps remember at the end are source files (`GoodD`: none is produced
     by a step - n2 itself refuses generated ones that lack a dependency path), the files the wanted
@@ -210,7 +209,7 @@ example : Plain exEnv.g := by
     `Sched.runLoop_done`; the next start-up re-attaches exactly that (`applyLog_spec`). -/
 theorem build_after_successful_build_does_nothing_with_depfiles (w : World) (a : InvArgs) (perms : List (List Nat))
     (fin : List (Nat × Sched.Term)) (l : Loader) (e0 : Env) (hl : loadEnv w a.manifestName = .ok (l, e0))
-    (plain : PlainD e0.g) (acyc : Sched.Acyclic (schedGraph e0.g)) (hpar : 0 < a.par) (n : Nat)
+    (plain : PlainD e0.g) (hpar : 0 < a.par) (n : Nat)
     (hdone : (Run.build (schedGraph e0.g) (argsOf l a) (choices a.adopt perms fin) e0).2.2 = .done n)
     (hsrc : GoodD (Run.build (schedGraph e0.g) (argsOf l a) (choices a.adopt perms fin) e0).1
               (Run.build (schedGraph e0.g) (argsOf l a) (choices a.adopt perms fin) e0).2.1)
@@ -224,7 +223,7 @@ theorem build_after_successful_build_does_nothing_with_depfiles (w : World) (a :
     (o1 o2 : List (List Nat) × List (Nat × Sched.Term)) :
     (invoke w' a o1 o2).1 = w' ∧ commandEvents (invoke w' a o1 o2).2.2 = [] ∧
     (∀ k, (invoke w' a o1 o2).2.1 = .done k → k = 0) :=
-  second_build_does_nothing_deps w a perms fin l e0 hl plain acyc hpar n hdone hsrc hpresent w' hw' e0' hl' o1 o2
+  second_build_does_nothing_deps w a perms fin l e0 hl plain hpar n hdone hsrc hpresent w' hw' e0' hl' o1 o2
 
 /-- The example project is of the kind this covers too. -/
 example : PlainD exEnv.g := by
